@@ -514,6 +514,13 @@ def run(chk):
                                'the bound is not the last element N - 1'), CLASSES, n['l'])
     chk.need(found, 'the refinement bound of the List.__getitem__ index was not found')
     literal_rule(chk, fx)
+    # the declared lengths N + M, N - 1, N * M are evaluated at type level by the constant folder
+    chk.rule('C34-eval', 'the operators that appear in the declared lengths (+, -, *) are evaluated at type level by ValueObj::try_add / try_sub / try_mul: every numeric arm of '
+                         'these applies its own operator to its operands in the order of the pattern (shares the engine of C04-R1 / C04-R1b)')
+    from sa.props import c04
+    types4 = fx.file(c04.VALUE)['types']
+    n = c04.fold_arms(chk, fx, types4, {k: v for k, v in c04.OPCLASS.items() if k in ('try_add', 'try_sub', 'try_mul')}, r1='C34-eval', r1b='C34-eval', audit=False)
+    chk.floor('length-arithmetic arms analysed', n, 25)
     return ('Table agreement between the dependent List signatures (typed HIR of Context::init_builtin_classes, let-bound type expressions resolved) and the run-time list '
             'operations (python ast of _erg_list.py interpreted over symbolic lengths; built-in list methods by a frozen table). Only the length clause of the property '
             '("length-indexed list types", "an index the checker accepts as in range ... is in range at run time") is decided, and only as far as the declarations go: '
